@@ -2,7 +2,20 @@
 //!
 //!   zvtmon <ID> [--tier quick|thorough] [--seed N] [--replay FILE]
 
+#[cfg(feature = "typed")]
 mod build;
+#[cfg(not(feature = "typed"))]
+mod build {
+    //! fallback: no typed construction (decoder bridge only)
+    use refcodec::engine::Built;
+    use refcodec::val::Val;
+    pub fn build_type(_key: &str, _v: &Val) -> Option<Result<Built, String>> {
+        None
+    }
+    pub fn decode_eq_type(_key: &str, _bytes: &[u8], _v: &Val) -> Option<bool> {
+        None
+    }
+}
 mod c02;
 mod c04;
 mod c08;
@@ -93,6 +106,7 @@ fn main() {
         std::process::exit(2);
     }
     sut::install_panic_hook();
+    refcodec::engine::install_log_sink();
     if !matches!(argv[1].as_str(), "selfcheck" | "c02-digest-server" | "c02-one" | "miri-slice") && ctx.replay.is_none() {
         refcodec::evidence::silence_stdout();
     }
